@@ -37,7 +37,7 @@ func pathExtGo(s string) string     { return filepath.Ext(s) }
 
 // LoadWorld loads /repo with the verifrt package and the harness files of the
 // given property injected through an overlay (nothing is written under repo).
-func LoadWorld(repo, verifDir, prop string) (*World, error) {
+func LoadWorld(repo, verifDir string, props ...string) (*World, error) {
 	start := time.Now()
 	overlay := map[string][]byte{
 		filepath.Join(repo, "internal/verifrt/rt.go"): []byte(verifrtSource),
@@ -49,7 +49,13 @@ func LoadWorld(repo, verifDir, prop string) (*World, error) {
 			return nil
 		}
 		base := filepath.Base(p)
-		if !(strings.HasPrefix(base, prop+"_") || strings.HasPrefix(base, "common_")) {
+		match := strings.HasPrefix(base, "common_")
+		for _, prop := range props {
+			if strings.HasPrefix(base, prop+"_") {
+				match = true
+			}
+		}
+		if !match {
 			return nil
 		}
 		rel, _ := filepath.Rel(hroot, filepath.Dir(p))
